@@ -378,6 +378,8 @@ class Validate:
             z3.Or(cls(L) == K("list"), cls(L) == K("tuple")),
             T.forall([j], z3.Implies(z3.And(j >= 0, j < n), at(j) == c.lget0(L0, j)), patterns=[at(j)]),
             T.forall([j], z3.Implies(z3.And(j >= 0, j < n), at(j) == c.lget0(L0, j)), patterns=[c.lget0(L0, j)]),
+            # (restated on the working list, for the preconditions of the recursive call) pairwise distinct
+            T.forall([j, j2], z3.Implies(z3.And(j >= 0, j < j2, j2 < n), at(j) != at(j2)), patterns=[z3.MultiPattern(at(j), at(j2))]),
             T.forall([j], z3.Implies(z3.And(j >= 0, j < idx), z3.And(ran(at(j)), z3.Not(stops(c, at(j), obj)), z3.Not(z3.And(z3.Not(VOK(at(j), obj)), VNTD(at(j), obj))))), patterns=[at(j)]),
             T.forall([j], z3.Implies(z3.And(j >= idx, j < n), z3.Not(ran(at(j)))), patterns=[at(j)]),
             T.forall([v], z3.Implies(z3.And(ran(v), z3.Not(ran0(v))), z3.Exists([j], z3.And(j >= 0, j < idx, v == at(j)))), patterns=[ran(v)]),
